@@ -278,16 +278,7 @@ def reference_closure(rep, ogp, where):
         rep.bad('C01.e.definition-reference', 'refclosure:undecided', where, 'cannot extract the struct selection predicate', undecided=True)
         return
     for va, vc in ((False, False), (True, False), (False, True), (True, True)):
-        def leaf(t, va=va, vc=vc):
-            if t == atoms['A']:
-                return (va,)
-            if t == atoms['B']:
-                return (True,)
-            if t == atoms['C']:
-                return (vc,)
-            if t == atoms['S']:
-                return (True,)
-            return None
+        leaf = atoms.leaf(True, va, True, vc)
         emitted = Eval(leaf, lenient=False).truth(pred)
         key = 'refclosure:impl-without-struct:vertex-arg∧entry-result' if (va and not vc) else f'refclosure:vertex-arg:A={int(va)},C={int(vc)}'
         rep.check(emitted, 'C01.e.definition-reference', key, where,
